@@ -26,11 +26,12 @@ class Num(Val):
     cls   : ClassInfo when the value is an instance of a repo Quantity subclass (DispersionMeasure)
     backend: 'numpy' | 'dask' | None for data arrays
     """
-    __slots__ = ("expr", "kind", "shape", "axes", "unit", "cls", "backend", "tag", "dtype", "isfloat")
+    __slots__ = ("expr", "kind", "shape", "axes", "unit", "cls", "backend", "tag", "dtype", "isfloat", "base")
 
     def __init__(self, expr, kind="number", shape=None, axes=None, unit=None, cls=None, backend=None,
                  tag=None, dtype=None, isfloat=False):
         self.isfloat = isfloat
+        self.base = None          # the array this one is a VIEW of (reshape / swapaxes / basic slice / .real ...), if any
         self.expr = sp.sympify(expr)
         self.kind = kind
         self.shape = tuple(shape) if shape is not None else None
